@@ -52,6 +52,8 @@ class C04Machine(M.MCMachine):
         self.step_changed = 0
         self.step_has_hmc = False
         self.c0 = None
+        for c in self.scn["atoms"]["constraints"]:
+            self.labels.add("constraint:" + c["kind"])
         self.gc_excl = bool(self.scn.get("exclude_gc_peratom_reject") and self.scn["ensemble"] == "GrandCanonical" and self.style in PERATOM)
         if self.scn.get("logger"):
             self.labels.add("logger")
@@ -87,7 +89,12 @@ class C04Machine(M.MCMachine):
             cp.calc = M.fresh_calc_like(self.style, self.scn["atoms"])
             return cp.get_potential_energy()
         p = self.info["calc_params"]
-        return model_energy_forces("pair", self.atoms.positions, self.atoms.cell.array, self.atoms.numbers, p)[0]
+        e = model_energy_forces("pair", self.atoms.positions, self.atoms.cell.array, self.atoms.numbers, p)[0]
+        # energy-bearing constraints (Hookean) contribute to atoms.get_potential_energy(): add their term from ASE itself
+        for c in self.atoms.constraints:
+            if hasattr(c, "adjust_potential_energy"):
+                e += c.adjust_potential_energy(self.atoms)
+        return e
 
     def before_move(self, name):
         if self.c0 is None and self.counting:
@@ -164,7 +171,7 @@ def scenario_strategy(known_active, styles):
     if "composite-multi-exchange" in known_active:
         exclude.add("multi-exchange")
     flag = "gc-revert-peratom-calculator" in known_active
-    return M.scenario(calc_styles=styles, logger=True, exclude=tuple(exclude), extra_arrays=False, constraints=True).map(
+    return M.scenario(calc_styles=styles, logger=True, exclude=tuple(exclude), extra_arrays=False, constraints=True, energy_constraints=True).map(
         lambda s: dict(s, exclude_gc_peratom_reject=flag))
 
 
